@@ -3,6 +3,9 @@ import BSModel.Model.Entities
 import BSModel.Model.Reader
 import BSModel.Gen.Entities
 import BSModel.Gen.EntitiesFormatters
+import BSModel.Gen.EntitiesSource
+import BSModel.Model.EntitiesPopulate
+import BSModel.Model.EntitiesGlue
 namespace BS.Drv.C09
 open BS.Entities BS.Reader BS.Drv
 
@@ -14,6 +17,35 @@ def showO : Option PStr → String
   | some s => showL s
 
 def regOf (s : String) : List RegEntry := if s == "x" then BS.Gen.C09.xmlRegistry else BS.Gen.C09.htmlRegistry
+
+/-- insertion sort by `cmpL` on a key (canonical order for the reply) -/
+def insertBy (key : α → PStr) (x : α) : List α → List α
+  | [] => [x]
+  | y :: ys => if cmpL (key x) (key y) == .gt then y :: insertBy key x ys else x :: y :: ys
+def sortBy (key : α → PStr) (l : List α) : List α := l.foldl (fun acc x => insertBy key x acc) []
+def sortNat (l : List Nat) : List Nat := (sortBy (fun n => [n]) l)
+
+def parseItems (s : String) : Items :=
+  (splitNE "/" s).filterMap fun it =>
+    match it.splitOn ":" with
+    | [n, c] => some (cps n, cps c)
+    | _ => none
+def parseCp2name (s : String) : List (Nat × PStr) :=
+  (splitNE "/" s).filterMap fun it =>
+    match it.splitOn ":" with
+    | [c, n] => c.toNat?.map fun k => (k, cps n)
+    | _ => none
+
+/-- canonical rendering of everything `_populate_class_variables` computes -/
+def showPopulate (items : Items) (cp : List (Nat × PStr)) : String :=
+  let ps := sortBy (·.key) (populateParticlesAmp items)
+  let pstr := ";".intercalate (ps.map fun p => showL p.key ++ "|" ++ showL (sortNat (dedup p.notNext)))
+  let chars := sortBy id (dedup (items.map (·.2) ++ cp.map fun e => [e.1]))
+  let ustr := ";".intercalate (chars.map fun ch => showL ch ++ "=" ++ showO (unicodeToName items cp ch))
+  let names := sortBy id (dedup (items.map fun it => (stripSemi it.1).1))
+  let nstr := ";".intercalate (names.map fun n => showL n ++ "=" ++ showO (nameToUnicode items n))
+  let lstr := ";".intercalate ((sortBy id (legacyNames items)).map showL)
+  s!"P {pstr} U {ustr} N {nstr} L {lstr}"
 
 def handle : List String → String
   | ["xml", s] => showL (substXml X (cps s))
@@ -39,6 +71,27 @@ def handle : List String → String
     let arg : Option (List PStr) := if cdataArg == "none" then none else some ((splitNE ";" cdataArg).map cps)
     let e := mkFormatter BS.Gen.C09.htmlDefaultCdata (lang == "x") fn.toNat! arg
     showL (formatterSubstitute T X e (if parent == "none" then none else some (cps parent)) (cps s))
+  | ["fmtstr", isXml, kind, a, b, parent, s] =>
+    -- format_string: kind = key (a = named bit, b = name) | callable (a = fn code) | custom (a = fn code, b = cdata arg)
+    let xml := isXml == "1"
+    let arg : FormatterArg :=
+      if kind == "key" then .key (a == "1") (cps b)
+      else if kind == "callable" then .callable a.toNat!
+      else .object (mkFormatter BS.Gen.C09.htmlDefaultCdata xml a.toNat!
+        (if b == "none" then none else some ((splitNE ";" b).map cps)))
+    match formatString T X BS.Gen.C09.htmlRegistry BS.Gen.C09.xmlRegistry BS.Gen.C09.htmlDefaultCdata xml arg
+        (if parent == "none" then none else some (cps parent)) (cps s) with
+    | none => "KeyError"
+    | some r => showL r
+  | ["fmtattr", reg, named, name, key, kind, v] =>
+    match findFormatter (regOf reg) (named == "1") (cps name) with
+    | none => "no-formatter"
+    | some e =>
+      let val : AttrVal := if kind == "absent" then .absent else if kind == "str" then .str (cps v)
+        else .list ((splitNE ";" v).map cps)
+      showL (formatAttribute T X e (cps key) val)
+  | ["populate-live"] => showPopulate BS.Gen.C09.html5Items BS.Gen.C09.codepoint2name
+  | ["populate", items, cp] => showPopulate (parseItems items) (parseCp2name cp)
   | ["all", s] =>
     let s := cps s
     let subs := [substXml X s, substHtml T s, substHtml5 T s]
